@@ -606,6 +606,18 @@ func asIntFraction(t *Term) (*Term, *big.Int, bool) {
 				return mkMul(mkBig(c.Num()), n), new(big.Int).Mul(d, c.Denom()), true
 			}
 		}
+	case "ite":
+		n1, d1, ok1 := asIntFraction(t.Args[1])
+		if !ok1 {
+			return nil, nil, false
+		}
+		n2, d2, ok2 := asIntFraction(t.Args[2])
+		if !ok2 {
+			return nil, nil, false
+		}
+		g := new(big.Int).GCD(nil, nil, d1, d2)
+		l := new(big.Int).Mul(new(big.Int).Quo(d1, g), d2)
+		return mkIte(t.Args[0], mkMul(mkBig(new(big.Int).Quo(l, d1)), n1), mkMul(mkBig(new(big.Int).Quo(l, d2)), n2)), l, true
 	case "rdiv":
 		if t.Args[1].isConst() && t.Args[1].Rat.Sign() > 0 {
 			if n, d, ok := asIntFraction(t.Args[0]); ok {
